@@ -217,6 +217,9 @@ def run(ctx):
         v = verdicts[t["tid"]]
         if not v["accept"]:
             ctx.reject({"case": cases[ci], "trace": t}, v["failed"], signature(cases[ci], t, v["failed"]))
+    ctx.phase("hook_traces")
+    from drivers import hooktrace
+    hooktrace.validate_events(ctx, hooktrace.traced_repo_tests(hooktrace.REPO_TESTS[4:5] if ctx.quick else hooktrace.REPO_TESTS[4:]), "C03")
     # negative controls
     ctx.phase("negative_controls")
     crng = np.random.default_rng(ctx.seed + 7)
